@@ -2644,6 +2644,8 @@ func (pid *PID) setBehavior(behavior Behavior) {
 // resetBehavior is a utility function resets the actor behavior
 func (pid *PID) resetBehavior() {
 	pid.fieldsLocker.Lock()
+	// UnBecome restores only the default behavior: drop whatever was stacked
+	pid.behaviorStack.Reset()
 	pid.behaviorStack.Push(pid.actor.Receive)
 	pid.fieldsLocker.Unlock()
 }
